@@ -38,6 +38,8 @@ type Parser struct {
 	mi         int
 	num        gen.Number
 	rn         rune
+	hi         rune // pending high surrogate of a \u escape
+	hiEnd      int  // len(tmp) right after that escape
 	result     any
 	mode       string
 	nextMode   string
@@ -100,6 +102,7 @@ func (p *Parser) Parse(buf []byte, args ...any) (any, error) {
 	} else {
 		p.stack = p.stack[:0]
 		p.tmp = p.tmp[:0]
+		p.hi = 0
 		p.starts = p.starts[:0]
 	}
 	p.result = nil
@@ -160,6 +163,7 @@ func (p *Parser) ParseReader(r io.Reader, args ...any) (data any, err error) {
 	} else {
 		p.stack = p.stack[:0]
 		p.tmp = p.tmp[:0]
+		p.hi = 0
 		p.starts = p.starts[:0]
 	}
 	p.result = nil
@@ -473,6 +477,7 @@ func (p *Parser) parseBuffer(buf []byte, last bool) error {
 			p.mode = expSignMap
 			continue
 		case strQuote:
+			p.hi = 0
 			p.mode = p.nextMode
 			if p.mode[':'] == colonColon {
 				p.stack = append(p.stack, gen.Key(p.tmp))
@@ -526,8 +531,23 @@ func (p *Parser) parseBuffer(buf []byte, last bool) error {
 				if len(p.runeBytes) < 6 {
 					p.runeBytes = make([]byte, 6)
 				}
-				n := utf8.EncodeRune(p.runeBytes, p.rn)
+				rn := p.rn
+				switch {
+				case 0xDC00 <= rn && rn <= 0xDFFF && p.hi != 0 && p.hiEnd == len(p.tmp):
+					// The low half of a surrogate pair directly after the high
+					// half. Together they are one code point so take back the
+					// replacement character written for the high half.
+					p.tmp = p.tmp[:len(p.tmp)-3]
+					rn = 0x10000 + (p.hi-0xD800)<<10 + (rn - 0xDC00)
+					p.hi = 0
+				case 0xD800 <= rn && rn <= 0xDBFF:
+					p.hi = rn
+				default:
+					p.hi = 0
+				}
+				n := utf8.EncodeRune(p.runeBytes, rn)
 				p.tmp = append(p.tmp, p.runeBytes[:n]...)
+				p.hiEnd = len(p.tmp)
 				p.mode = stringMap
 			}
 			continue
